@@ -85,6 +85,16 @@ def predicted_cases():
                 body = G.gen_decision(0, [('i', 0)], '', table=G.gen_table(n_in, n_out, [(n_in, n_out), rule]))
                 out.append(('table-in%d-out%d-rule%d/%d' % (n_in, n_out, rule[0], rule[1]), G.HDR + inp + body + '</definitions>\n', ['d0'], ['i0'],
                             'build 1000 (mk_defs [mk_table %d %d [mk_rule %d %d; mk_rule %d %d]] [(0, [])])' % (n_in, n_out, n_in, n_out, rule[0], rule[1]), False))
+    for name, g in G.long_cycle_graphs().items():
+        gterm = '[' + '; '.join('(%d, %s)' % (i, nat_list(js)) for i, js in sorted(g.items())) + ']'
+        body = ''.join(G.gen_decision(i, [('d', j) for j in js] + [('i', 0)], ' + '.join(['i0'] + ['d%d' % j for j in js])) for i, js in sorted(g.items()))
+        out.append(('decisions-' + name, G.HDR + inp + body + '</definitions>\n', ['d%d' % i for i in sorted(g)[:3]], ['i0'], 'build 1000 (mk_defs [] %s)' % gterm, False))
+        body = ''.join(G.gen_bkm(i, js, ' + '.join(['x'] + ['b%d(x)' % j for j in js])) for i, js in sorted(g.items()))
+        body += G.gen_decision(0, [('b', max(g)), ('i', 0)], 'b%d(i0)' % max(g))
+        out.append(('knowledge-' + name, G.HDR + inp + body + '</definitions>\n', ['d0'] + ['b%d' % i for i in sorted(g)[:2]], ['i0'],
+                    'build 1000 (mk_defs [] ((100, [%d]) :: %s))' % (max(g), gterm), False))
+    for label, xml, inv, inputs, gterm, _ in G.nested_item_models():
+        out.append((label, xml, inv, inputs, 'build 1000 (mk_defs [] %s)' % gterm, False))
     shapes = {
         'self-ref': ([('tA', 'tA', [])], '[(0, [0])]'), 'ref-cycle2': ([('tA', 'tB', []), ('tB', 'tA', [])], '[(0, [1]); (1, [0])]'),
         'component-cycle': ([('tA', None, [('c', 'tA')])], '[(0, [0])]'), 'component-cycle2': ([('tA', None, [('c', 'tB')]), ('tB', None, [('c', 'tA')])], '[(0, [1]); (1, [0])]'),
@@ -207,7 +217,7 @@ def run(ctx):
     ctx.sample({'fault': stats['first_fault']})
     return ctx.finish(
         rule='generated models with a predicted outcome (requirement graphs: chains, diamond, self loop, 2- and 3-cycles, tail into a cycle, dangling reference — between decisions and between '
-             'knowledge models; tables whose second rule has one entry less / more than the input or output clauses; item definitions referring to themselves directly, mutually and through '
+             'knowledge models; rings of length 1..5 entered directly, through tails and with exits; item definition cycles through components nested 1..4 deep, through collections and references; tables whose second rule has one entry less / more than the input or output clauses; item definitions referring to themselves directly, mutually and through '
              'components); every .dmn under examples/src unchanged; single structural faults at sampled (quick) or all (thorough) positions: delete / duplicate / empty / swap of every element, '
              'delete / empty / garble of every attribute and text node, every href retargeted to a missing element, its own element, an ancestor, or stripped of #; pairs of faults (thorough); '
              'random byte corruption.  Every invocable of the (faulted) model is evaluated with an empty context and with all inputs bound.  non-trivial = the faulted model still builds',
@@ -240,7 +250,7 @@ MANIFEST = dict(
               'fault injection through the real loader/builder/evaluator in guarded threads / child processes, debug and release builds',
     text="PARTIAL. Proved (coq/Props/C12.v, closed under the global context): building a decision table is Ok or Err for all clause and entry counts, Ok exactly when every rule matches the clauses, and evaluation never indexes an empty result; "
          "for every acyclic requirement graph (given by a decreasing numbering) build and evaluation end with Ok/Err within rank+1 stack frames; on EVERY cyclic graph the recursion of the builders cannot end for any stack size, so the pinned code "
-         "aborts on every cyclic model — the cycle search placed in front of it is exact on all 4164 graphs with up to 3 nodes (finite sweep). The four confirmed defects of the pinned commit are refuted by witnesses and fixed (2 commits). "
+         "aborts on every cyclic model — the cycle search placed in front of it is exact on all 4164 graphs with up to 3 nodes (finite sweep); item definitions are trees of any depth: the collected type references are exactly the references occurring anywhere in the tree, so a self reference through components of any depth is a cycle of the searched graph. The four confirmed defects of the pinned commit are refuted by witnesses and fixed (2 commits). "
          "Not modelled, only observed: roxmltree, the real stack, the FEEL texts inside models. Fault injection: every example model plus ~6000 (quick) / all ~169k (thorough) single structural faults, pairs of faults, byte corruption; parse -> ModelEvaluator::new -> every invocable, both builds.",
     note='Trusted: Coq kernel + vm_compute, hand-written abstract model (tied by predicted-outcome models), harness dv guard/dv model, Python fault injector (xml.etree). '
          'A panic, abort, stack overflow or hang at parse, build or evaluation of any faulted model is a VIOLATION with the model text as replay.')
